@@ -18,11 +18,11 @@ fn space_for(tier: Tier) -> (Space, usize) {
     let mut s = Space::new();
     match tier {
         Tier::Quick => {
-            s.ast("K", 4, 64).ast("G", 4, 64).ast("AN", 3, 64);
+            s.ast("K", 5, 64).ast("G", 5, 64).ast("AN", 4, 64);
             (s, 2)
         }
         Tier::Thorough => {
-            s.ast("K", 5, 64).ast("G", 5, 64).ast("AN", 5, 64).ast("Q", 3, 64);
+            s.ast("K", 5, 64).ast("G", 6, 64).ast("AN", 5, 64).ast("Q", 3, 64).ast("GC", 5, 64);
             (s, 3)
         }
     }
